@@ -94,3 +94,33 @@ class SimProcess:
 
     def reference(self, text):
         return self.mod.parse(text, bypass_cache=True)
+
+
+class ApiProcess:
+    """A simulated process as far as the CasADi API is concerned: a fresh module instance of
+    pymoca.backends.casadi.api bound to its own version label."""
+
+    def __init__(self, label):
+        import pymoca
+        import pymoca.backends.casadi.api as real_api  # noqa: F401  (makes sure the package is imported)
+
+        self.label = label
+        path = os.path.join(os.path.dirname(pymoca.__file__), "backends", "casadi", "api.py")
+        code = _code_cache.get(path)
+        if code is None:
+            with open(path, "rb") as f:
+                code = compile(f.read(), path, "exec")
+            _code_cache[path] = code
+        spec = importlib.util.spec_from_file_location("pymoca.backends.casadi.api", path)
+        mod = importlib.util.module_from_spec(spec)
+        saved = pymoca.__version__
+        pymoca.__version__ = label
+        try:
+            exec(code, mod.__dict__)
+        finally:
+            pymoca.__version__ = saved
+        mod.__version__ = label
+        self.mod = mod
+
+    def transfer_model(self, folder, name, options):
+        return self.mod.transfer_model(folder, name, dict(options))
